@@ -4,10 +4,12 @@ pub mod exp;
 pub mod outbuf;
 pub mod report;
 pub mod spy;
+pub mod tok;
 pub mod util;
 
 pub use exp::*;
 pub use outbuf::*;
 pub use report::*;
 pub use spy::*;
+pub use tok::*;
 pub use util::*;
